@@ -95,6 +95,17 @@ def run_case(ctx, idx, case):
         for op in case["build"]:
             if op["k"] not in ("reopen", "gc"):
                 s.apply(op)
+        if case["seed"] % 2 == 0:
+            # half of the cases also hold a drillhole group with concatenated holes and data (stored inside the group's
+            # own arrays: their write path differs from that of ordinary entities)
+            from geoh5py.groups import DrillholeGroup
+            from geoh5py.objects import Drillhole
+            dg = DrillholeGroup.create(s.ws, name="dh_group")
+            for i in range(2):
+                well = Drillhole.create(s.ws, parent=dg, name=f"hole_{i}", collar=np.r_[float(i), 0.0, 10.0],
+                                        surveys=np.c_[np.r_[0.0, 20.0], np.r_[0.0, 5.0], np.r_[-90.0, -85.0]])
+                well.add_data({"assay": {"depth": np.r_[1.0, 5.0, 9.0], "values": np.r_[0.1, 0.2, 0.3 + i]}})
+            del dg, well
         s.ws.close()
         tree0 = None
         h0 = sha(path)
@@ -103,7 +114,10 @@ def run_case(ctx, idx, case):
         # a creation refused by the read-only gate leaves an in-memory-only object attached to its parent
         # (never on file); such phantoms are not targets: calls on them have nothing to write
         all_entities = s.entities
-        s.entities = lambda: [e for e in all_entities() if e.on_file]
+        # the drillhole group and its concatenated content are not targets of the history generator's operations (their
+        # structural edits are C04's subject); they are targets of the assignments of step 4
+        s.entities = lambda: [e for e in all_entities() if e.on_file and not type(e).__name__.startswith("Concatenated")
+                              and type(e).__name__ != "DrillholeGroup"]
         lines.append({"m": "life", "op": "init", "tree": tree0, "mode": "r"})
         expect.append(None)
         n_mut = 0
@@ -170,6 +184,22 @@ def run_case(ctx, idx, case):
                     raised = True
                 ctx.count("setter_raised" if raised else "setter_silent")
                 judge(f"setattr {name}", False, raised)
+        # 4. value-changing assignments of plain attributes on every kind of stored entity (incl. concatenated ones):
+        #    each would have to write, so each must raise
+        for e in all_entities():
+            if e is s.ws.root or not getattr(e, "on_file", False):
+                continue
+            todo = [("name", lambda v: str(v) + "_x"), ("visible", lambda v: not v), ("public", lambda v: not v),
+                    ("allow_rename", lambda v: not v)]
+            if type(e).__name__.endswith("Drillhole"):
+                todo += [("cost", lambda v: float(v or 0.0) + 1.0), ("collar", lambda v: [5.0, 5.0, 5.0])]
+            for attr, change in todo[: 2 + case["seed"] % 4]:
+                raised = False
+                try:
+                    setattr(e, attr, change(getattr(e, attr)))
+                except Exception:  # noqa: BLE001
+                    raised = True
+                judge(f"assign {type(e).__name__}.{attr}", True, raised)
         s.ws.close()
         judge("close", False, False)
         from geoh5py.ui_json.utils import path2workspace
